@@ -73,6 +73,23 @@ class Session:
                 v = rng.choice([{"t": "list", "v": [1, 2, 3]}, {"t": "str", "v": rng.choice(AWKWARD)}, {"t": "float", "v": 0.1},
                                 {"t": "tuple", "v": [1, 2]}, {"t": "str", "v": "x" * 5}])
                 extra.append({"op": "set_ref", "space": s.path(), "name": rng.choice(["s1", "s2"]), "value": v})
+        if rng.random() < 0.25:
+            # a base space named like an attribute of the Space / Model interface
+            nm = rng.choice(["doc", "name", "refs", "path", "cells", "formula", "parent"])
+            if nm not in m.spaces and nm not in m.refs and "ZD" not in m.spaces:
+                extra.append({"op": "new_space", "parent": "", "name": nm, "bases": []})
+                extra.append({"op": "new_space", "parent": "", "name": "ZD", "bases": [nm]})
+        if rng.random() < 0.25:
+            # an input value None, assigned while None was allowed and kept after it is not
+            cands = [(s, n) for s in m.all_spaces() for n, (d, c) in gen.visible_cells(s).items()
+                     if d is s and c.formula and c.formula["params"] and c.is_cached]
+            if cands:
+                s, n = cands[rng.randrange(len(cands))]
+                c = gen.visible_cells(s)[n][1]
+                args = [rng.randrange(3) for p_, d_ in c.formula["params"]]
+                extra.append({"op": "set_allow_none", "space": s.path(), "name": n, "v": True})
+                extra.append({"op": "set_value", "space": s.path(), "name": n, "args": args, "value": None, "how": "setitem"})
+                extra.append({"op": "set_allow_none", "space": s.path(), "name": n, "v": False})
         if cfg.get("bomb"):
             sps = [""] + [x.path() for x in m.all_spaces()]
             extra.append({"op": "set_ref", "space": rng.choice(sps), "name": "bb", "value": {"t": "bomb", "v": rng.randrange(1, 9)}})
